@@ -13,6 +13,7 @@ model's three single definitions (`rankAscending`, `cutoffChecksRefit`, `tunerDe
 repaired behaviour; the clauses are proved here at full strength (see findings/C08.md, known_findings/C08.json).
 -/
 import SkVerif.Lemmas.Tune
+import SkVerif.Lemmas.TuneSetParams
 namespace SkVerif.C08
 open SkVerif SkVerif.Tune SkVerif.Lem.Tune
 
@@ -313,4 +314,47 @@ theorem failed_fit_leaves_unfitted {S Op V A C Y : Type} {m : Machine S Op V A} 
     (h : fitTuner m cfg ev TState.initial y a = (st', .error e)) : st'.isFitted = false := by
   rw [fitTuner_error_isFitted h]; rfl
 
+/-! ### Candidates of a composite: `clone(forecaster).set_params(**params)` with a component replaced AND nested
+parameters of that component in the same parameter set (model: SkVerif/Model/TuneSetParams.lean of sktime/base/_meta.py).
+For all composites, component names, replacement estimators, parameter names and values, in either dict order. -/
+
+/-- what the statement requires of the component `name` of the candidate built from a parameter set that names the
+estimator `c` for it and the value `v` for its parameter `sub`: it is `c` (its class, its other arguments) with `sub := v` -/
+def ComponentIs (r : Composite) (name : String) (c : Comp) (sub : String) (v : Val) : Prop :=
+  ∃ c', getStep name r.steps = some c' ∧ c'.cls = c.cls ∧ getArg sub c'.args = some v ∧
+    ∀ k, k ≠ sub → getArg k c'.args = getArg k c.args
+
+theorem replaced_component_receives_nested_params (m : Composite) (name sub : String) (c : Comp) (v : Val)
+    (hname : (getStep name m.steps).isSome) (hsub : (getArg sub c.args).isSome) :
+    (∃ r, setParams m [.step name c, .nested name sub v] = .ok r ∧ ComponentIs r name c sub v ∧ r.own = m.own) ∧
+    (∃ r, setParams m [.nested name sub v, .step name c] = .ok r ∧ ComponentIs r name c sub v ∧ r.own = m.own) := by
+  obtain ⟨a, ha, hg, ho⟩ := setArg_of_present sub v c.args hsub
+  have hrep := getStep_replaceStep_self name c m.steps hname
+  obtain ⟨st', h1, h2⟩ := applyNested_of_present name sub v c a ha _ hrep
+  have hk : unknownStep m (.step name c) = false := by
+    simp [unknownStep, hname]
+  have hne : ¬ getStep name m.steps = none := by
+    intro h; rw [h] at hname; simp at hname
+  constructor
+  · refine ⟨{ m with steps := st' }, ?_, ⟨_, h2, rfl, hg, ho⟩, rfl⟩
+    simp [setParams, unknownStep, hne, phaseReplace, phaseRest, h1]
+  · refine ⟨{ m with steps := st' }, ?_, ⟨_, h2, rfl, hg, ho⟩, rfl⟩
+    simp [setParams, unknownStep, hne, phaseReplace, phaseRest, h1]
+
+/-- a nested name the NEW component does not have is rejected (ValueError), whatever the old component accepted -/
+theorem nested_param_unknown_to_new_component_rejected (m : Composite) (name sub : String) (c : Comp) (v : Val)
+    (hname : (getStep name m.steps).isSome) (hsub : setArg sub v c.args = none) :
+    setParams m [.step name c, .nested name sub v] = .error .value := by
+  have hrep := getStep_replaceStep_self name c m.steps hname
+  have hne : ¬ getStep name m.steps = none := by
+    intro h; rw [h] at hname; simp at hname
+  have h1 := applyNested_rejected name sub v c hsub _ hrep
+  simp [setParams, unknownStep, hne, phaseReplace, phaseRest, h1]
+
+def pipe : Composite :=
+  ⟨[("t", ⟨"Shift", [("c", "1")]⟩), ("f", ⟨"Naive", [("strategy", "last"), ("sp", "1")]⟩)], []⟩
+
+example : (setParams pipe [.nested "f" "strategy" "mean", .step "f" ⟨"Naive", [("strategy", "last"), ("sp", "4")]⟩]).toOption =
+    some ⟨[("t", ⟨"Shift", [("c", "1")]⟩), ("f", ⟨"Naive", [("strategy", "mean"), ("sp", "4")]⟩)], []⟩ := by decide +kernel
+example : (getStep "f" pipe.steps).isSome ∧ (getArg "strategy" [("strategy", "last"), ("sp", "4")]).isSome := by decide +kernel
 end SkVerif.C08
